@@ -222,6 +222,7 @@ func (vm *Thread) callBytecodePromise(promise *Promise) {
 
 	baseStack := &generator.stack[0]
 	stackLen := len(generator.stack)
+	vm.growValueStackIfNeeded(stackLen)
 	for i := range stackLen {
 		*vm.spAdd(i) = *vm.stackAdd(baseStack, i)
 	}
@@ -253,6 +254,7 @@ func (vm *Thread) CallGeneratorNext(generator *Generator) (value.Value, value.Va
 
 	baseStack := &generator.stack[0]
 	stackLen := len(generator.stack)
+	vm.growValueStackIfNeeded(stackLen)
 	for i := range stackLen {
 		*vm.spAdd(i) = *vm.stackAdd(baseStack, i)
 	}
@@ -366,6 +368,7 @@ func (vm *Thread) CallBytecodeClosure(closure *BytecodeClosure, args ...value.Va
 	vm.ipSet(&closure.Bytecode.Instructions[0])
 	vm.localCount = len(args)
 	vm.upvalues = closure.Upvalues
+	vm.growValueStackIfNeeded(len(args) + 1)
 	// push `self`
 	vm.push(closure.Self)
 	for _, arg := range args {
@@ -2154,6 +2157,7 @@ func (vm *Thread) callBytecodeClosure(closure *BytecodeClosure, callInfo *CallSi
 	vm.fp = vm.spSubtractRaw(uintptr(function.parameterCount) + 1)
 	vm.ipSet(&function.Instructions[0])
 	vm.upvalues = closure.Upvalues
+	vm.growValueStackIfNeeded(0)
 
 	return value.Undefined
 }
@@ -2254,6 +2258,7 @@ func (vm *Thread) callBytecodeFunctionTCO(method *BytecodeFunction, argCount int
 	vm.bytecode = method
 	vm.ipSet(&method.Instructions[0])
 	vm.tailCallCounter++
+	vm.growValueStackIfNeeded(0)
 }
 
 // set up the vm to execute a bytecode method
@@ -2306,6 +2311,15 @@ func (vm *Thread) growValueStack() {
 	vm.fp = vm.stackAddRaw(newStackPtr, fpOffset)
 	vm.sp = vm.stackAddRaw(newStackPtr, spOffset)
 	vm.stack = newStack
+}
+
+// Grow the value stack until `extra` more slots fit below the growth threshold.
+// Every way of entering a bytecode frame has to call this (or do the check itself),
+// values are pushed without a bounds check.
+func (vm *Thread) growValueStackIfNeeded(extra int) {
+	for float64(vm.spOffset()+extra) > 0.7*float64(len(vm.stack)) {
+		vm.growValueStack()
+	}
 }
 
 // Define instance variables in a class
